@@ -25,8 +25,8 @@ func (c *Client) Authenticate(saslClient sasl.Client) error {
 	}
 
 	cmd := &authenticateCommand{}
-	contReq := c.registerContReq(cmd)
 	enc := c.beginCommand("AUTHENTICATE", cmd)
+	contReq := c.registerContReq(cmd)
 	enc.SP().Atom(mech)
 	if initialResp != nil && hasSASLIR {
 		enc.SP().Atom(internal.EncodeSASL(initialResp))
